@@ -1,7 +1,19 @@
 (* C02 — Turns are scheduled by action value.
-   Only statements, [exact] and [Print Assumptions] live here. *)
+   Only statements, [exact] and [Print Assumptions] live here.
+
+   First the theorems about FLAT histories (every operation an atomic [Turn.step]); then
+   (C02_reentrant ...) the same for histories WITH re-entrant listeners: every event the manager emits
+   (TurnTargetsAdded, TurnReset, GaugeChange, CurrentGaugeCostChange) has a listener slot holding a
+   queue of scripts of the manager's own operations, run at the point where the Go code calls Emit
+   (Model/TurnRe.v).  The re-entrant theorems reduce every such history to the flat ones: each call,
+   top-level or nested at any depth, is an atomic step in the flat state of the calls entered before
+   it.  All of them quantify over every top-level history, every listener table and every fuel; the
+   out-of-fuel and illegal-listener-operation outcomes are excluded by the hypothesis that the run is
+   [Done], and proved unreachable for fuel above the number of script operations and scripts free of
+   StartTurn / ResetTurn / AddTargets. *)
 From Coq Require Import List ZArith Bool Reals Permutation.
 From SR Require Import Base.NumOps Model.Turn Proofs.TurnProofs.
+From SR Require Import Model.TurnRe Proofs.TurnReProofs.
 From SR Require Gen.FormulasTurn Proofs.FormulasTurnProofs.
 Import ListNotations.
 
@@ -93,3 +105,137 @@ Theorem C02_nonvacuous :
   legal (init ROps) [@OAdd ROps [(1%Z, 100%R); (2%Z, 90%R)]; @OStart ROps; @OModNorm ROps 2%Z (-2)%R;
                      @OReset ROps; @OStart ROps].
 Proof. exact legal_history_exists. Qed.
+
+(* ------------------------------------------------------------------------------------------ *)
+(* Histories WITH re-entrant listeners *)
+
+(* the property over whole re-entrant histories (real-number instance; the statement is spelled out in
+   Proofs/TurnReProofs.v, Part 5): explained by flat atomic steps; every call, outer or nested, entered
+   in a reachable state satisfying every clause of C02; no negative gauge at any observation point *)
+Theorem C02_reentrant : C02_reentrant_statement.
+Proof. exact C02_reentrant_holds. Qed.
+Print Assumptions C02_reentrant.
+
+(* every number system (incl. binary64, the instance executed and compared with the Go code): the trace
+   is explained by flat atomic steps and the final state is the flat execution of the calls in the
+   order in which they were entered *)
+Theorem C02_reentrant_explained_by_flat_steps :
+  forall N fuel (q : slots N) s ops s2 q2 t,
+    runL N fuel q s ops = Done (s2, q2, t) -> explained s [] t /\ s2 = exec s (tcalls t).
+Proof. exact reentrant_explained. Qed.
+Print Assumptions C02_reentrant_explained_by_flat_steps.
+
+(* every number system: along a history whose AddTargets add new ids, every call - top-level or nested -
+   is entered with unique ids and meets the per-call specifications (turn start, gauge change touches
+   one unit and never goes below zero, reset of the acting unit only) in the flat state where it is
+   entered *)
+Theorem C02_reentrant_every_call_meets_spec :
+  forall N fuel (q : slots N) ops s2 q2 t,
+    runL N fuel q (init N) ops = Done (s2, q2, t) -> adds_ok (init N) (tcalls t) ->
+    explained (init N) [] t /\ s2 = exec (init N) (tcalls t) /\ wf N s2 /\
+    forall a o b, tcalls t = a ++ o :: b -> call_meets_spec (exec (init N) a) o.
+Proof. exact reentrant_every_call_meets_spec. Qed.
+Print Assumptions C02_reentrant_every_call_meets_spec.
+
+(* the probe after every return, top-level or nested, is the flat state reached so far *)
+Theorem C02_reentrant_observations :
+  forall N fuel (q : slots N) s ops s2 q2 t,
+    runL N fuel q s ops = Done (s2, q2, t) ->
+    forall a rt p b, t = a ++ TRet rt p :: b -> p = probe_of N (exec s (tcalls a)).
+Proof.
+  intros N fuel q s ops s2 q2 t H.
+  exact (explained_probes N t s [] (proj1 (reentrant_explained N fuel q s ops s2 q2 t H))).
+Qed.
+Print Assumptions C02_reentrant_observations.
+
+(* the excluded outcomes are unreachable under checkable conditions *)
+Theorem C02_reentrant_fuel_is_enough :
+  forall N fuel (q : slots N) s ops, (total_ops N q < fuel)%nat -> runL N fuel q s ops <> OutOfFuel.
+Proof. exact fuel_enough. Qed.
+Print Assumptions C02_reentrant_fuel_is_enough.
+
+Theorem C02_reentrant_legal_scripts_never_illegal :
+  forall N fuel (q : slots N) s ops, scripts_legal N q = true -> runL N fuel q s ops <> Illegal.
+Proof. exact legal_scripts_never_illegal. Qed.
+Print Assumptions C02_reentrant_legal_scripts_never_illegal.
+
+(* hence the hypotheses of C02_reentrant are met by EVERY history that starts with one AddTargets of
+   new units with positive speeds and otherwise - top level and all listener scripts, any nesting -
+   contains no AddTargets and only positive speed changes *)
+Theorem C02_reentrant_static_histories :
+  forall fuel (q : slots ROps) ivs ops,
+    (total_ops ROps q < fuel)%nat -> scripts_legal ROps q = true ->
+    slots_all ROps static_ok q -> Forall static_ok ops -> op_ok (init ROps) (OAdd ivs) ->
+    exists s2 q2 t, runL ROps fuel q (init ROps) (OAdd ivs :: ops) = Done (s2, q2, t) /\
+                    legal (init ROps) (tcalls t).
+Proof. exact reentrant_static_history_runs. Qed.
+Print Assumptions C02_reentrant_static_histories.
+
+(* conservative extension: without listener scripts the re-entrant model is the flat model *)
+Theorem C02_no_listener_scripts_is_flat :
+  forall N fuel ops (q : slots N) s, total_ops N q = 0%nat ->
+    exists q2, runL N (S fuel) q s ops = Done (exec s ops, q2, flat_trace s ops).
+Proof. exact no_listeners_is_flat. Qed.
+Print Assumptions C02_no_listener_scripts_is_flat.
+
+(* StartTurn emits nothing: as a whole call it is its atomic step (the turn-start clauses hold of
+   whole calls, whatever the listeners are) *)
+Theorem C02_start_turn_call_is_atomic :
+  forall N fuel (q : slots N) s s2 q2 t,
+    call N fuel q s OStart = Done (s2, q2, t) ->
+    s2 = fst (step N s OStart) /\ q2 = q /\ tcalls t = [OStart].
+Proof. exact start_call_is_atomic. Qed.
+Print Assumptions C02_start_turn_call_is_atomic.
+
+(* what is NOT true with re-entrant listeners: "changes that unit only" / "that unit's gauge and no
+   other is reset" read for the WHOLE call (state before against state at the return).  The clauses hold
+   per call at its commit (the theorems above); a whole call leaves its own step followed by the flat
+   steps of its listeners' calls, and meets the per-call specification as a whole when its listeners
+   made no call. *)
+Theorem C02_whole_gauge_call_touches_one_unit_refuted : ~ C02_whole_gauge_call_touches_one_unit_statement.
+Proof. exact whole_gauge_call_touches_one_unit_refuted. Qed.
+Print Assumptions C02_whole_gauge_call_touches_one_unit_refuted.
+
+Theorem C02_whole_reset_call_resets_one_unit_refuted : ~ C02_whole_reset_call_resets_one_unit_statement.
+Proof. exact whole_reset_call_resets_one_unit_refuted. Qed.
+Print Assumptions C02_whole_reset_call_resets_one_unit_refuted.
+
+Theorem C02_whole_call_partial :
+  forall (N : NumOps) fuel (q : slots N) (s : tstate N) o s2 q2 t,
+    call N fuel q s o = Done (s2, q2, t) ->
+    (exists nested, tcalls t = o :: nested /\ s2 = exec (fst (step N s o)) nested) /\
+    (tcalls t = [o] -> s2 = fst (step N s o)).
+Proof. exact whole_call_partial. Qed.
+Print Assumptions C02_whole_call_partial.
+
+Theorem C02_whole_gauge_call_touches_one_unit_partial :
+  forall (N : NumOps) fuel (q : slots N) (s : tstate N) o id s2 q2 t, wf N s ->
+    (exists amt, o = OSetGauge id amt \/ o = OModNorm id amt \/ o = OModAV id amt) ->
+    call N fuel q s o = Done (s2, q2, t) -> tcalls t = [o] ->
+    set_gauge_spec N s s2 id (snd (step N s o)).
+Proof. exact whole_gauge_call_touches_one_unit_partial. Qed.
+Print Assumptions C02_whole_gauge_call_touches_one_unit_partial.
+
+Theorem C02_whole_reset_call_resets_one_unit_partial :
+  forall (N : NumOps) fuel (q : slots N) (s : tstate N) s2 q2 t, wf N s ->
+    call N fuel q s OReset = Done (s2, q2, t) -> tcalls t = [OReset] ->
+    reset_spec N s s2 (snd (step N s OReset)).
+Proof. exact whole_reset_call_resets_one_unit_partial. Qed.
+Print Assumptions C02_whole_reset_call_resets_one_unit_partial.
+
+(* non-vacuity with re-entrant histories: at the real-number instance a listener table whose run
+   completes and is legal, the TurnTargetsAdded listener's call being the second call of the trace; at
+   binary64, by evaluation, a history nested three levels deep (AddTargets > ModifyGaugeNormalized >
+   SetCurrentGaugeCost > ModifyGaugeNormalized) and a TurnReset listener that sets a gauge *)
+Theorem C02_reentrant_nonvacuous :
+  exists s2 q2 t,
+    runL ROps 9 re_q (init ROps) (@OAdd ROps re_ivs :: re_ops) = Done (s2, q2, t) /\
+    legal (init ROps) (tcalls t) /\
+    exists rest, tcalls t = @OAdd ROps re_ivs :: @OModNorm ROps 2%Z (- (1 / 10))%R :: rest.
+Proof. exact reentrant_legal_history_exists. Qed.
+
+Theorem C02_reentrant_nonvacuous_binary64 :
+  exists s2 q2 t, runL FloatOps 5 fre_q (init FloatOps) fre_ops = Done (s2, q2, t) /\
+                  tcalls t = fre_calls /\ adds_ok (init FloatOps) (tcalls t) /\
+                  total_ops FloatOps q2 = 0%nat /\ atarget s2 = 2%Z.
+Proof. exact fre_runs. Qed.
